@@ -406,6 +406,21 @@ pub fn run(ctx: &'static Ctx, p: P) {
                     let fields = t.fields(k, shape);
                     let first_wide = fields.iter().position(|ft| matches!(ft, crate::tables::FT::U(b) if *b >= 8));
                     let pre = t.prelude(k, shape);
+                    // one argument at an extreme (all of it zero, all of it ones), the others ordinary: an update rule that
+                    // treats a zero argument as "absent" while its neighbour was already accounted for shows here
+                    for (i, ft) in fields.iter().enumerate() {
+                        if !matches!(ft, crate::tables::FT::U(_)) {
+                            continue;
+                        }
+                        for (label, v) in [("zero", 0u64), ("ones", u64::MAX)] {
+                            for base in [2u8, 3u8] {
+                                let mut ops = pre.clone();
+                                ops.push(Op { k, shape, fill: crate::fill::Fill::b(base).with(i as u8, v) });
+                                ops.push(Op { k, shape, fill: crate::fill::Fill::b(1) });
+                                progs.push((format!("{}[shape {} arg {} all {} base {}]", t.kinds()[k as usize], shape, i, label, base), ops));
+                            }
+                        }
+                    }
                     for (i, ft) in fields.iter().enumerate() {
                         // every byte-wide argument through all its values; the first wider one through all 256 low bytes
                         let byte_wide = matches!(ft, crate::tables::FT::U(b) if *b <= 8);
